@@ -348,7 +348,11 @@ pub fn handle_server_fns_with_context(
             if let Some(mut service) =
                 server_fn::actix::get_server_fn_service(path, method)
             {
-                let owner = Owner::new();
+                // a server function call is a request of its own: its owner must be a root, not a
+                // child of whichever owner (the root of a page that is still being rendered) happens
+                // to be current on this thread. A child would see that request's context and shared
+                // context, and would be cleaned up with it
+                let owner = Owner::new_root(None);
                 owner
                     .with(|| {
                         ScopedFuture::new(async move {
